@@ -105,7 +105,23 @@ def run(ctx):
             if (st in acc) != real:
                 ctx.harness_error("E2-translator", f"DFA table of {pat.show(t)} disagrees with real match on {w}")
                 return
-    for t in trees:
+    # quick tier: the trees with exactly K+1 operators in which a repetition has a nullable body (epsilon cycles in the construction) are added -
+    # all of them to E1, a seeded sample of 16 to E2
+    extra = []
+    if ctx.quick():
+        def rep_nullable(t):
+            if t[0] == "atom":
+                return False
+            if t[0] in ("star", "plus") and pat.nullable(t[1]):
+                return True
+            return any(rep_nullable(c) for c in t[1:])
+        known = set(trees)
+        extra = [t for t in pat.all_trees(K + 1) if t not in known and rep_nullable(t)]
+        ctx.bounds["patterns (nullable repetition bodies)"] = f"{len(extra)} trees with exactly {K + 1} operators whose star/plus has a nullable body"
+    import random as _random
+    sample = list(extra)
+    _random.Random(ctx.seed).shuffle(sample)
+    for t in list(trees) + sample[:16]:
         verdict, word, dt = z3_query(t, LMAX, z3)
         ident = f"E2:{pat.show(t)}"
         if verdict == "unsat":
@@ -127,6 +143,7 @@ def run(ctx):
     B = 8
     T = 150 if ctx.quick() else 600
     jobs = []
+    trees = list(trees) + extra
     for i in range(0, len(trees), B):
         batch = trees[i:i + B]
         tag = f"trees[{i}:{i + len(batch)}] {pat.show(batch[0])}.."
